@@ -493,7 +493,11 @@ def compositions(ctx):
                     if nonzero:
                         w = (rho * sp.cos(beta), rho * sp.sin(beta))
                     else:
-                        # z == 0: 1 if a == 0 else 0, imaginary part untouched
+                        # z == 0: 1 if a == 0 else 0, imaginary part untouched - and this branch is for z == 0 only
+                        others = sign_models(lf.pc, X, Y) - {(0, 0)}
+                        if others:
+                            probs.append('the z = 0 branch is also taken for (sign x, sign y) in %s' % sorted(others))
+                            continue
                         if sp.sympify(gr) in (0, 1) and sp.sympify(gi) == Y:
                             continue
                         probs.append('z = 0 branch stores (%s, %s)' % (gr, gi))
@@ -502,6 +506,10 @@ def compositions(ctx):
                     if sp.sympify(gr).has(AppliedUndef):
                         w = base('atan', cinv(Z))
                     else:
+                        others = sign_models(lf.pc, X, Y) - {(0, 0)}
+                        if others:
+                            probs.append('the z = 0 branch is also taken for (sign x, sign y) in %s' % sorted(others))
+                            continue
                         if zero(gr - sp.pi / 2) and sp.sympify(gi) == Y:
                             continue
                         probs.append('z = 0 branch stores (%s, %s), expected pi/2' % (gr, gi))
@@ -533,6 +541,32 @@ def compositions(ctx):
                        sample={'fn': name, 'paths': len(lv)})
         except Unsupported as e:
             rep.unk('CX-4', name, str(e))
+
+
+def sign_models(pc, x, y):
+    """the sign patterns (sign x, sign y) in {-1,0,1}^2 that are consistent with the comparisons of x and y against 0 in a path
+    condition (conjunctions / disjunctions included; conditions about anything else do not restrict)"""
+    def ev(c, sx, sy):
+        if isinstance(c, alg.BoolOp):
+            vals = [ev(a, sx, sy) for a in c.args]
+            return all(vals) if c.op == 'and' else any(vals) if c.op == 'or' else True
+        if not isinstance(c, alg.Cond):
+            return True
+        a, b = sp.sympify(c.a), sp.sympify(c.b)
+        rel = c.rel()
+        if b in (x, y) and a == 0:
+            a, b = b, a
+            rel = {'<': '>', '<=': '>=', '>': '<', '>=': '<='}.get(rel, rel)
+        if b != 0 or a not in (x, y):
+            return True
+        v = sx if a == x else sy
+        return {'<': v < 0, '<=': v <= 0, '>': v > 0, '>=': v >= 0, '==': v == 0, '!=': v != 0}[rel]
+    out = set()
+    for sx in (-1, 0, 1):
+        for sy in (-1, 0, 1):
+            if all(ev(c, sx, sy) for c in pc):
+                out.add((sx, sy))
+    return out
 
 
 def principal_sqrt(ctx):
